@@ -283,18 +283,20 @@ deriving Repr, DecidableEq
 /-- shift of user constraints: `d + 1 if d >= 0 else d`. -/
 def shiftCons (user : Cons) : Cons := user.map fun p => (if 0 ≤ p.1 then p.1 + 1 else p.1, p.2)
 
+def initStore (size : Nat) : InitVal → Store (Nat × List Row)
+  | .none => .none
+  | .empty => .empty
+  | .uninit => .uninit
+  | .zeros sh => .init sh (0, freshRows size sh)     -- `value.unsqueeze(0).repeat(size, 1, …)`
+
 def construct (T : TimeOps τ) (dt dur : τ) (incl strict param : Bool) (user : Cons) (v : InitVal) :
     Except Err (MState τ) :=
-  if ¬ T.pos dt then .error .ValueError
-  else if ¬ T.nonneg dur then .error .ValueError
-  else
-    let size := recSize T dt dur incl
-    let cons := (shiftCons user).put 0 size
-    let store : Store (Nat × List Row) := match v with
-      | .none => .none | .empty => .empty | .uninit => .uninit
-      | .zeros sh => .init sh (0, freshRows size sh)
-    let s : MState τ := ⟨dt, dur, incl, cons, strict, param, store⟩
-    if validM s then .ok s else .error .RuntimeError
+  if T.pos dt = false then .error .ValueError
+  else if T.nonneg dur = false then .error .ValueError
+  else if validM (⟨dt, dur, incl, (shiftCons user).put 0 (recSize T dt dur incl), strict, param,
+                   initStore (recSize T dt dur incl) v⟩ : MState τ) = false then .error .RuntimeError
+  else .ok ⟨dt, dur, incl, (shiftCons user).put 0 (recSize T dt dur incl), strict, param,
+            initStore (recSize T dt dur incl) v⟩
 
 /-! ### Vocabulary of the size-formula invariant -/
 
